@@ -78,6 +78,7 @@ type StepResult struct {
 	Resp    *abci.ResponseFinalizeBlock
 	EngLog  []Call
 	Process *abci.ResponseProcessProposal
+	Req     *abci.RequestFinalizeBlock
 }
 
 // Begin computes the consensus-side block and the tx list without executing.
@@ -125,7 +126,8 @@ func (s *Sim) Exec(b Block, txs [][]byte, process bool) (*StepResult, error) {
 			return res, fmt.Errorf("ProcessProposal rejected an honest block")
 		}
 	}
-	resp, err := s.Node.Finalize(b.FinalizeReq(txs, s.Chain.NextVals.Hash()))
+	res.Req = b.FinalizeReq(txs, s.Chain.NextVals.Hash())
+	resp, err := s.Node.Finalize(res.Req)
 	res.EngLog = s.Node.Eng.TakeLog()
 	if err != nil {
 		return res, fmt.Errorf("FinalizeBlock height %d: %w", b.Height, err)
